@@ -45,7 +45,7 @@ CONFIG["C15"] = dict(
 )
 
 CONFIG["C05"] = dict(
-    lean_modules=["Props.C05"],
+    lean_modules=["Props.C05", "Props.C05Model"],
     generators=["C05"],
     level="proof",
     rule="per decoder (BLS private/public/signature parsing, ECDSA private/raw public/compressed public on P-256 and secp256k1): all lengths 0..200, "
@@ -58,8 +58,11 @@ CONFIG["C05"] = dict(
                "BLS signatures (E1_read_bytes) and public keys (E2_read_bytes + G2 check): accepted = canonical compressed encodings of reduced curve points (resp. of points with r*P = O, the identity being exactly C0 00..00), "
                "accepted strings re-encode to the input, every such point round-trips (bls_sig_accepts_iff, bls_pk_accepts_iff, bls_pk_identity): p prime (Pratt certificate checked by the kernel), p = 3 mod 4, "
                "completeness of the F_p and F_p^2 square roots of the model, no point with y = 0 on E1 or E2 (-4 and 32 are non-cubes mod p). X9.62-compressed ECDSA public keys on both curves: accepted = canonical 02/03||X encodings of reduced curve points, re-encode to the input, round trip "
-               "(ecdsa_p256_compressed_iff, ecdsa_k256_compressed_iff; no point with y = 0: -7 is not a cube mod the secp256k1 prime, and gcd(x^p - x, x^3 - 3x + b) = 1 for P-256 with x^p computed modulo the cubic in the kernel plus a Bezout identity).",
-    level_note="Lean kernel; the subgroup test r*P = O is the model's Jacobian scalar multiplication (not related to the group law by a theorem); known finding F2 (component order vs ZCash) is reported as KNOWN-FINDING",
+               "(ecdsa_p256_compressed_iff, ecdsa_k256_compressed_iff; no point with y = 0: -7 is not a cube mod the secp256k1 prime, and gcd(x^p - x, x^3 - 3x + b) = 1 for P-256 with x^p computed modulo the cubic in the kernel plus a Bezout identity). "
+               "Props.C05Model: the membership tests ARE the group-theoretic ones - inG1_iff_torsion / inG2_iff_torsion: the model's Jacobian double-and-add by r returns infinity exactly when r*P = 0 in Mathlib's group of the curve (over F_p resp. F_p^2 = F_p[u]/(u^2+1)); "
+               "bls_pk_accepts_iff_torsion: accepted public keys = canonical encodings of the r-torsion points of E2(F_p^2), identity included; bls_pk_decode_injective: two accepted strings decoding to the same group element are equal; "
+               "accepted ECDSA raw keys are points of the group of P-256 / secp256k1 (ecdsa_*_pk_valid).",
+    level_note="Lean kernel; the subgroup test r*P = O of the model is proven to be r-torsion in the curve's group (Props.C05Model); BLST's own endomorphism-based test is compared, not verified; known finding F2 (component order vs ZCash) is reported as KNOWN-FINDING",
     assumptions=["BLST and Go standard library arithmetic agree with the model outside the generated catalogue"],
 )
 
